@@ -66,6 +66,8 @@ struct BsWorld {
     redelivered: Vec<bool>,
     /// one shred of the same block arrived through the repair path (an unfinished repair)
     repair_shred_done: bool,
+    /// the blockstore was told to delete everything BEFORE the block's slot (the slot itself stays)
+    pruned_below_slot: bool,
     first_shreds: usize,
     blocks: usize,
     invalids: usize,
@@ -93,6 +95,7 @@ impl Sys for BsSys {
             alt_done: vec![false; self.shape.alts.len()],
             redelivered: vec![false; self.n_slices()],
             repair_shred_done: false,
+            pruned_below_slot: false,
             first_shreds: 0,
             blocks: 0,
             invalids: 0,
@@ -102,7 +105,7 @@ impl Sys for BsSys {
     }
 
     fn num_actions(&self) -> usize {
-        2 * self.n_slices() + self.shape.alts.len() + 1
+        2 * self.n_slices() + self.shape.alts.len() + 2
     }
 
     fn enabled(&self, w: &BsWorld, _h: &[u16], a: u16) -> bool {
@@ -115,9 +118,11 @@ impl Sys for BsSys {
             w.progress[j] > 0 && !w.redelivered[j]
         } else if a < 2 * n + self.shape.alts.len() {
             !w.alt_done[a - 2 * n]
-        } else {
+        } else if a == 2 * n + self.shape.alts.len() {
             // only for well-formed blocks (repair is requested for certified blocks)
             !w.repair_shred_done && self.shape.expect == Expect::Clean
+        } else {
+            !w.pruned_below_slot
         }
     }
 
@@ -152,7 +157,12 @@ impl Sys for BsSys {
             }
             events.extend(ev);
             what = format!("re-deliver last shred of slice {j}");
-        } else if a >= 2 * n + sh.alts.len() {
+        } else if a > 2 * n + sh.alts.len() {
+            // pruning up to (not including) the block's own slot must not disturb anything
+            w.pruned_below_slot = true;
+            w.bs.bs.prune(Slot::new(SLOT));
+            what = format!("prune everything before slot {SLOT}");
+        } else if a == 2 * n + sh.alts.len() {
             // an unfinished repair of the very same block: one genuine shred stored under its hash
             w.repair_shred_done = true;
             let s = sh.block.shreds[n - 1][37].clone();
@@ -274,6 +284,7 @@ impl Sys for BsSys {
         w.alt_done.hash(&mut h);
         w.redelivered.hash(&mut h);
         w.repair_shred_done.hash(&mut h);
+        w.pruned_below_slot.hash(&mut h);
         (w.first_shreds, w.blocks, w.invalids).hash(&mut h);
         // observable blockstore state
         let id: BlockId = (Slot::new(SLOT), self.shape.block.hash.clone());
@@ -294,8 +305,10 @@ impl Sys for BsSys {
             format!("re-deliver last shred of slice {}", a - n)
         } else if a < 2 * n + self.shape.alts.len() {
             format!("deliver alternative signed shred: {}", self.shape.alts[a - 2 * n].2)
-        } else {
+        } else if a == 2 * n + self.shape.alts.len() {
             "one shred of the same block arrives through the repair path".to_string()
+        } else {
+            format!("the blockstore prunes everything before slot {SLOT}")
         }
     }
 
